@@ -176,6 +176,19 @@ def gen_script(rnd):
             continue
         lines.append("    return %s" % (res[0] if nres == 1 else "[" + ", ".join(res) + "]"))
         funs.append(("f%d" % k, ar, nres))
+    listfun = None
+    if rnd.random() < 0.2:
+        # a sub-circuit that receives a list and works on it in place (the caller's and the callee's blocks must still pair the
+        # arguments as they were handed over)
+        ln = rnd.randint(2, 3)
+        lines.append("@subqap(\"lst%d\")" % ln)
+        lines.append("def fL(v):")
+        lines.append("    v[0] = v[0] * v[1] + v[%d]" % (ln - 1))
+        if rnd.random() < 0.5:
+            lines.append("    v[1] = v[0] * v[0]")
+        lines.append("    return v[0] + v[%d] * 2" % (ln - 1))
+        listfun = ln
+        shapes.add("list-argument-modified-in-place")
     ring_only = not (fam & {"bits", "div", "cmp", "assert-int(const-one-wire)"})
     hostile = [0, 1, 2, 3, 5, 7, -1, -4, 12] + ([p + 2, p - 1, -p - 3, (1 << 260) + 5] if ring_only else [])
     vals = [rnd.choice(hostile) if rnd.random() < 0.25 else rnd.randint(0, 9) for _ in range(rnd.randint(2, 4))]
@@ -232,6 +245,11 @@ def gen_script(rnd):
             x, y = rnd.choice(names), rnd.choice(names)
             lines.append("r%d = %s" % (j, rnd.choice(["%s * %s" % (x, y), "%s + %s" % (x, y), "%s * %s - %s" % (x, y, x)])))
         names.append("r%d" % j)
+    if listfun:
+        for j in range(rnd.randint(1, 2)):
+            lines.append("rl%d = fL([%s])" % (j, ", ".join(rnd.choice(names) + (" + x0 * 0" if k == 0 else "") for k in range(listfun))))
+            names.append("rl%d" % j)
+            ncalls += 1
     if rnd.random() < 0.2:
         # the proving step is not a one-shot: an explicit prove() in the middle, the exit hook proves again at the end
         lines.append("try:\n    qb.prove()\nexcept Exception as _e:\n    MID.append(repr(_e))")
